@@ -72,6 +72,15 @@ def build_recipe(fa, ctx, recipe, syms):
         return ctx.constant(recipe[1], syms["x"]) if not isinstance(recipe[1], bool) else ctx.constant(recipe[1])
     if k == "n":
         return ctx.constant(recipe[1], syms["x"])
+    if k == "ref":  # ("ref", name, sub): the sub-expression asks for the reference name `name`
+        return build_recipe(fa, ctx, recipe[2], syms).reference(recipe[1])
+    if k == "call":  # ("call", fname, sub): sub is built inside ctx.call of a function named fname (its own naming scope)
+
+        def fn(ctx_):
+            return build_recipe(fa, ctx_, recipe[2], syms)
+
+        fn.__name__ = recipe[1]
+        return ctx.call(fn, ())
     ops = [build_recipe(fa, ctx, r, syms) for r in recipe[1:]]
     if k == "select":
         return ctx.select(*ops)
@@ -84,6 +93,8 @@ def skeleton(r):
         return k
     if k in ("c", "n"):
         return repr(r[1])
+    if k in ("ref", "call"):
+        return f"{k}[{r[1]}](" + skeleton(r[2]) + ")"
     return k + "(" + ",".join(skeleton(q) for q in r[1:]) + ")"
 
 
